@@ -12,35 +12,39 @@ open Statrs Statrs.Gen
 namespace F.beta
 
 /-- innermost `loop` of `inv_beta_reg`: shrink `g` until the step is acceptable.
-    returns (g, sq, pnext) -/
-partial def invInner (p q prev : Float) (g : Float) (fuel : Nat) : Float × Float × Float :=
-  let adj := g * q
-  let sq := adj * adj
-  let pnext := p - adj
-  if sq < prev && (0.0 ≤ pnext && pnext ≤ 1.0) then (g, sq, pnext)
-  else match fuel with
-    | 0 => (g, sq, fNaN)
-    | fuel + 1 => invInner p q prev (g / 3.0) fuel
+    returns (g, sq, pnext); `none` = fuel exhausted (the real loop would not terminate) -/
+def invInner (p q prev : Float) (g : Float) : Nat → Option (Float × Float × Float)
+  | 0 => none
+  | fuel + 1 =>
+    let adj := g * q
+    let sq := adj * adj
+    let pnext := p - adj
+    if sq < prev && (0.0 ≤ pnext && pnext ≤ 1.0) then some (g, sq, pnext)
+    else invInner p q prev (g / 3.0) fuel
 
 /-- middle `loop`: returns (sq, pnext, brokeOuter) -/
-partial def invMiddle (p q prev acu : Float) (g : Float) (fuel : Nat) : Float × Float × Bool :=
-  let (g, sq, pnext) := invInner p q prev g 100000
-  if prev ≤ acu || q * q ≤ acu then (sq, pnext, true)
-  else if pnext != 0.0 && pnext != 1.0 then (sq, pnext, false)
-  else match fuel with
-    | 0 => (sq, fNaN, true)
-    | fuel + 1 => invMiddle p q prev acu (g / 3.0) fuel
+def invMiddle (p q prev acu : Float) (g : Float) : Nat → Option (Float × Float × Bool)
+  | 0 => none
+  | fuel + 1 =>
+    match invInner p q prev g 5000 with
+    | none => none
+    | some (g, sq, pnext) =>
+      if prev ≤ acu || q * q ≤ acu then some (sq, pnext, true)
+      else if pnext != 0.0 && pnext != 1.0 then some (sq, pnext, false)
+      else invMiddle p q prev acu (g / 3.0) fuel
 
-partial def invOuter (a b x lnBeta acu fpu : Float) (p qprev sq prev : Float) (fuel : Nat) : Float :=
-  let q := F.beta.beta_reg (α := Float) a b p
-  let q := (q - x) * Float.exp (lnBeta + (1.0 - a) * Float.log p + (1.0 - b) * Float.log (1.0 - p))
-  let prev := if q * qprev ≤ 0.0 then (if sq > fpu then sq else fpu) else prev
-  let (sq, pnext, brk) := invMiddle p q prev acu 1.0 100000
-  if brk then pnext
-  else if pnext == p then p
-  else match fuel with
-    | 0 => fNaN
-    | fuel + 1 => invOuter a b x lnBeta acu fpu pnext q sq prev fuel
+def invOuter (a b x lnBeta acu fpu : Float) (p qprev sq prev : Float) : Nat → Float
+  | 0 => panicNaN
+  | fuel + 1 =>
+    let q := F.beta.beta_reg (α := Float) a b p
+    let q := (q - x) * Float.exp (lnBeta + (1.0 - a) * Float.log p + (1.0 - b) * Float.log (1.0 - p))
+    let prev := if q * qprev ≤ 0.0 then (if sq > fpu then sq else fpu) else prev
+    match invMiddle p q prev acu 1.0 5000 with
+    | none => panicNaN
+    | some (sq, pnext, brk) =>
+      if brk then pnext
+      else if pnext == p then p
+      else invOuter a b x lnBeta acu fpu pnext q sq prev fuel
 
 def inv_beta_reg (a b x : Float) : Float :=
   let lnBeta := F.beta.ln_beta (α := Float) a b
@@ -71,7 +75,7 @@ def inv_beta_reg (a b x : Float) : Float :=
     let p := fclamp p 0.0001 0.9999
     let e : Int := (RFun.toI32 (-5.0 / a / a - 1.0 / Float.pow x 0.2 - 13.0 : Float))
     let acu := if e > -30 then Float.powi 10.0 e else fpu
-    let p := invOuter a b x lnBeta acu fpu p 0.0 1.0 1.0 100000
+    let p := invOuter a b x lnBeta acu fpu p 0.0 1.0 1.0 5000
     if flip then 1.0 - p else p
 
 end F.beta
